@@ -16,6 +16,10 @@ import (
 	"time"
 )
 
+// MaxFragmentSize is the largest downstream fragment a client may ask for, be it as a probe or as its setting
+// (the client's own auto-detection never goes above 8192)
+const MaxFragmentSize = 0xFFFF
+
 var ConnectionTimeout = 5 * time.Minute          // ConnectionTimeout specifies that connections will timeout 2 minutes after we've seen the last contact from the user
 var OldConnectionTimeout = 6 * ConnectionTimeout // Old connections will also timeout after a certain time
 
@@ -316,7 +320,10 @@ func (s *ServerDnsListener) setOptionsRequest(v *commands.SetOptionsRequest, m *
 			logString += ", downenc=%v"
 			logData = append(logData, v.DownstreamEncoder)
 		}
-		if v.DownstreamFragmentSize != nil {
+		if v.DownstreamFragmentSize != nil && (*v.DownstreamFragmentSize == 0 || *v.DownstreamFragmentSize > MaxFragmentSize) {
+			// used as chunk size of the send queue: zero would never make progress
+			resp.Err = commands.BadFrag
+		} else if v.DownstreamFragmentSize != nil {
 			user.Serializer.Downstream.FragmentSize = *v.DownstreamFragmentSize
 			logString += ", downfrag=%v"
 			logData = append(logData, *v.DownstreamFragmentSize)
@@ -341,6 +348,9 @@ func (s *ServerDnsListener) testDownstreamFragmentSize(v *commands.TestDownstrea
 	u, err := s.validateAndGetUser(v.UserId, remoteAddr)
 	if err != nil {
 		resp.Err = err
+	} else if v.FragmentSize > MaxFragmentSize {
+		// do not allocate whatever the peer asks for
+		resp.Err = commands.BadFrag
 	} else {
 		resp.Data = make([]byte, v.FragmentSize)
 		v := byte(107)
